@@ -103,7 +103,9 @@ var scalSize = unsafe.Sizeof(secp.Scalar{})
 
 // PointerFree reports whether the shared argument types can live in the arena.
 func PointerFree() bool {
-	return !hasPointers(reflect.TypeOf(secp.Element{})) && !hasPointers(reflect.TypeOf(secp.Scalar{}))
+	// "can live in the guarded arena": no pointers inside (untracked memory
+	// must not hold any) and no larger than a page
+	return !hasPointers(reflect.TypeOf(secp.Element{})) && !hasPointers(reflect.TypeOf(secp.Scalar{})) && elemSize <= 4096 && scalSize <= 4096
 }
 
 func hasPointers(t reflect.Type) bool {
